@@ -96,8 +96,53 @@ class ELN(Normaliser):
             self.positive_atoms.add(i)
         return r, i
 
+    @staticmethod
+    def _divide_by_linear(num, den):
+        """den = a*v + b for a single atom v (a, b constants): num = q*den + r with r free of v; None otherwise"""
+        if len(den) != 2 or () not in den:
+            return None
+        (m1, a), = [(m, c) for m, c in den.items() if m != ()]
+        if len(m1) != 1 or m1[0][1] != 1:
+            return None
+        v, b = m1[0][0], den[()]
+        q, rem = {}, dict(num)
+        for _ in range(64):
+            top = max((dict(m).get(v, 0) for m in rem), default=0)
+            if top < 1:
+                return q, rem
+            for m, c in list(rem.items()):
+                if dict(m).get(v, 0) != top:
+                    continue
+                mm = dict(m)
+                mm[v] -= 1
+                if not mm[v]:
+                    del mm[v]
+                m_ = tuple(sorted(mm.items()))
+                q = padd(q, {m_: c / a})
+                rem = padd(rem, pmul({m_: c / a}, den), -1)
+        return None
+
     def exp_rf(self, p):
         num, den = p
+        if not is_const(den):
+            # den = g * den1 with g the monomial content of den; num = q*den1 + r  =>  exp(num/den) = exp(q/g) * exp(r/den)
+            content = None
+            for m in den:
+                mm = dict(m)
+                content = mm if content is None else {a: min(k, mm[a]) for a, k in content.items() if a in mm}
+            g = {tuple(sorted((content or {}).items())): Fraction(1)}
+            den1 = {}
+            for m, cf in den.items():
+                mm = dict(m)
+                for a, k in (content or {}).items():
+                    mm[a] -= k
+                    if not mm[a]:
+                        del mm[a]
+                den1[tuple(sorted(mm.items()))] = cf
+            d = self._divide_by_linear(num, den1)
+            if d is not None and d[0]:
+                first = self.exp_rf(self.cancel(d[0], g))
+                return self.rmul(first, self.exp_rf(self.cancel(d[1], den)) if d[1] else (ONE, ONE))
         # exp(NEGINF) = 0
         if len(num) == 1 and den == ONE:
             (m, c), = num.items()
